@@ -465,8 +465,7 @@ func (ctrl *DefaultController) createTransaction(ctx context.Context, store Stor
 			}
 			trace.SpanFromContext(ctx).SetAttributes(attribute.String("schema_validation_failed", err.Error()))
 			logging.FromContext(ctx).Errorf("schema validation failed: %s", err)
-		}
-		if template, ok := schema.SchemaData.Transactions[parameters.Input.Template]; ok {
+		} else if template, ok := schema.SchemaData.Transactions[parameters.Input.Template]; ok {
 			parameters.Input.Plain = template.Script
 			if parameters.Input.Runtime == "" {
 				parameters.Input.Runtime = template.Runtime
